@@ -3,6 +3,7 @@ package transport
 import (
 	"bufio"
 	"context"
+	"errors"
 	"fmt"
 	"io"
 
@@ -322,11 +323,17 @@ func referenceExists(s storer.ReferenceStorer, n plumbing.ReferenceName) (bool, 
 
 func updateReferences(st storage.Storer, req *packp.UpdateRequests, cmdStatus map[plumbing.ReferenceName]error, firstErr *error) {
 	for _, cmd := range req.Commands {
-		exists, err := referenceExists(st, cmd.Name)
-		if err != nil {
+		var current *plumbing.Reference
+		ref, err := st.Reference(cmd.Name)
+		switch {
+		case err == nil:
+			current = ref
+		case errors.Is(err, plumbing.ErrReferenceNotFound):
+		default:
 			setStatus(cmdStatus, firstErr, cmd.Name, err)
 			continue
 		}
+		exists := current != nil
 
 		switch cmd.Action() {
 		case packp.Create:
@@ -339,7 +346,9 @@ func updateReferences(st storage.Storer, req *packp.UpdateRequests, cmdStatus ma
 			err := st.SetReference(ref)
 			setStatus(cmdStatus, firstErr, cmd.Name, err)
 		case packp.Delete:
-			if !exists {
+			// The client's old value must be the current one: its view of
+			// the reference may be stale.
+			if !exists || current.Hash() != cmd.Old {
 				setStatus(cmdStatus, firstErr, cmd.Name, ErrUpdateReference)
 				continue
 			}
@@ -347,13 +356,18 @@ func updateReferences(st storage.Storer, req *packp.UpdateRequests, cmdStatus ma
 			err := st.RemoveReference(cmd.Name)
 			setStatus(cmdStatus, firstErr, cmd.Name, err)
 		case packp.Update:
-			if !exists {
+			if !exists || current.Hash() != cmd.Old {
 				setStatus(cmdStatus, firstErr, cmd.Name, ErrUpdateReference)
 				continue
 			}
 
+			// Check-and-set, so that a concurrent push that changed the
+			// reference in the meantime is not overwritten.
 			ref := plumbing.NewHashReference(cmd.Name, cmd.New)
-			err := st.SetReference(ref)
+			err := st.CheckAndSetReference(ref, plumbing.NewHashReference(cmd.Name, cmd.Old))
+			if err != nil {
+				err = fmt.Errorf("%w: %w", ErrUpdateReference, err)
+			}
 			setStatus(cmdStatus, firstErr, cmd.Name, err)
 		}
 	}
